@@ -311,6 +311,14 @@ pub fn raw_ev_from(log: &mut Log, bytes: &[u8], origin: &str, via: &str, base: O
                 }
                 Err(e) => (jopen::<()>(&Err(e)), json!({})),
             },
+            // the image starts at a chosen address modulo 64 (an FST opened in place inside a larger buffer)
+            v if v.starts_with("slice@") => {
+                let k: usize = v[6..].parse().unwrap();
+                let mut buf = vec![0u8; bytes.len() + 128];
+                let off = (64 + k - (buf.as_ptr() as usize % 64)) % 64;
+                buf[off..off + bytes.len()].copy_from_slice(bytes);
+                probe!(Fst::new(&buf[off..off + bytes.len()]))
+            }
             _ => probe!(Fst::new(bytes)),
         }
     });
@@ -582,6 +590,11 @@ pub fn c08(log: &mut Log, seed: u64, tier: &str) {
         let items = assign(keys.clone(), *pick(&mut r, VAL_MODES), &mut r);
         let (bytes, nodes) = build_raw(&items, 0, false, *pick(&mut r, GEOMETRIES));
         raw_ev(log, &bytes, &format!("built:{}", name), "slice");
+        // ... wherever in memory the image starts (verification reads it in place)
+        let k0 = r.gen_range(0, 64);
+        for k in [k0, (k0 + 1 + 2 * r.gen_range(0, 8)) % 64].iter() {
+            raw_ev(log, &bytes, &format!("built:{}", name), &format!("slice@{}", k));
+        }
         if bytes.len() < 3000 {
             file_ev(log, &bytes, &items, 0, nodes as i64, name);
         }
@@ -610,6 +623,27 @@ pub fn c08(log: &mut Log, seed: u64, tier: &str) {
             }
         };
         raw_ev(log, &bytes, "built:sweep", "slice");
+    }
+    // (1a'') images of many sizes (below and above one and several KiB) at every start address
+    // modulo 16 and a few modulo 64
+    {
+        let sizes: &[usize] = if thorough(tier) { &[3, 20, 60, 100, 140, 180, 260, 400, 700, 1500] } else { &[3, 60, 140, 260, 700] };
+        for (j, &nk) in sizes.iter().enumerate() {
+            let mut b2 = Builder::memory();
+            let mut ks: Vec<String> = (0..nk).map(|i| format!("{:06}x{}", (i * 7919) % 999983, i % 7)).collect();
+            ks.sort();
+            ks.dedup();
+            for (i, k) in ks.iter().enumerate() {
+                b2.insert(k, (i as u64) << (j * 5)).unwrap();
+            }
+            let bytes = b2.into_inner().unwrap();
+            for k in 0..16usize {
+                raw_ev(log, &bytes, "built:placed", &format!("slice@{}", k));
+            }
+            for k in [17usize, 31, 33, 47, 63].iter() {
+                raw_ev(log, &bytes, "built:placed", &format!("slice@{}", k));
+            }
+        }
     }
     // (1a') a wide root of every fan-out 33..256 (the 256-byte index is the one long write of a
     // build; it starts at every offset modulo the checksum's block sizes), as set and as map
@@ -650,6 +684,76 @@ pub fn c08(log: &mut Log, seed: u64, tier: &str) {
                 }
             }
             Err(e) => log.ev(json!({"ev": "Panic", "in": "build_through", "msg": e, "origin": what})),
+        }
+    }
+    // (1c) ... and through sinks that hand bytes on only when they are flushed (a staging writer, a
+    // BufWriter whose inner writer is looked at without dropping it): what has been handed on when
+    // finish / into_inner returns is the image
+    {
+        use std::cell::RefCell;
+        use std::rc::Rc;
+        struct Staged {
+            staging: Vec<u8>,
+            committed: Rc<RefCell<Vec<u8>>>,
+        }
+        impl std::io::Write for Staged {
+            fn write(&mut self, buf: &[u8]) -> std::io::Result<usize> {
+                self.staging.extend_from_slice(buf);
+                Ok(buf.len())
+            }
+            fn flush(&mut self) -> std::io::Result<()> {
+                self.committed.borrow_mut().extend_from_slice(&self.staging);
+                self.staging.clear();
+                Ok(())
+            }
+        }
+        for (i, (name, keys)) in ins.iter().filter(|(_, k)| k.len() <= 300).take(if thorough(tier) { 60 } else { 24 }).enumerate() {
+            let items = assign(keys.clone(), *pick(&mut r, VAL_MODES), &mut r);
+            let committed = Rc::new(RefCell::new(vec![]));
+            let staged = Staged { staging: vec![], committed: committed.clone() };
+            let how = ["map finish", "map into_inner", "set finish", "raw into_inner", "raw finish", "bufwriter into_inner"][i % 6];
+            let res = guard(|| -> Result<(), fst::Error> {
+                match i % 6 {
+                    0 | 1 => {
+                        let mut b = fst::MapBuilder::new(staged)?;
+                        for (k, v) in &items {
+                            b.insert(k, *v)?;
+                        }
+                        if i % 6 == 0 { b.finish() } else { b.into_inner().map(|w| std::mem::forget(w)) }
+                    }
+                    2 => {
+                        let mut b = fst::SetBuilder::new(staged)?;
+                        for (k, _) in &items {
+                            b.insert(k)?;
+                        }
+                        b.finish()
+                    }
+                    3 | 4 => {
+                        let mut b = Builder::new(staged)?;
+                        for (k, v) in &items {
+                            b.insert(k, *v)?;
+                        }
+                        if i % 6 == 3 { b.into_inner().map(|w| std::mem::forget(w)) } else { b.finish() }
+                    }
+                    _ => {
+                        // the BufWriter is kept alive (not dropped, not flushed again) while the image is read
+                        let mut b = Builder::new(std::io::BufWriter::with_capacity(7 + i, staged))?;
+                        for (k, v) in &items {
+                            b.insert(k, *v)?;
+                        }
+                        b.into_inner().map(|w| std::mem::forget(w))
+                    }
+                }
+            });
+            let what = format!("{} through a staging sink ({})", name, how);
+            match res {
+                Ok(Ok(())) => {
+                    let bytes = committed.borrow().clone();
+                    raw_ev(log, &bytes, &format!("built:{}", what), "slice");
+                }
+                Ok(Err(e)) => log.ev(json!({"ev": "Panic", "in": "staged build", "msg": format!("{:?}", e), "origin": what})),
+                Err(p) => log.ev(json!({"ev": "Panic", "in": "staged build", "msg": p, "origin": what})),
+            }
         }
     }
     // (2) the crate's CRC of arbitrary data for lengths across the 16-byte fast path boundary
